@@ -38,10 +38,11 @@ CLAUSES = {
     "cbor_decode inverts cbor_encode for every length < 2^32, at each prefix boundary":
         "proved (cbor_roundtrip, cbor_encode_layout, cbor_encode_domain, cbor_encode_injective)",
     "convertbits 8->5 (pad) then 5->8 (no pad) is the identity": "proved (convertbits_roundtrip)",
-    "bc32 decode inverts encode": "proved (bc32_roundtrip)",
+    "bc32 decode inverts encode": "proved (bc32_roundtrip, bc32_encode_total; constants: spec_constants)",
     "a bc32 string with one substituted character is refused": "proved (bc32_single_substitution)",
     "BCURMulti.encode chunking: non-empty, at most the chunk size, equal length except the last, concatenation = payload":
-        "proved (chunks_join, chunks_length, chunks_nonempty, chunks_le_max; float ceil = integer ceiling for lengths < 2^53 is an assumption)",
+        "proved (multi_encode_chunks, chunk_arithmetic; the text is shorter than 2^36 < 2^53 characters, for which float "
+        "ceil(a/b) = integer ceiling is an assumption about CPython's correctly rounded division)",
     "parse (encode x) = x, single and multi": "proved relative to sha256 (single_roundtrip, multi_roundtrip)",
     "parts out of order / differing checksum / differing y are refused": "proved (multi_out_of_order, multi_checksum_mismatch, multi_y_mismatch)",
     "accepted parts yielding other data than the checksum's owner encoded exhibit a SHA-256 collision":
@@ -63,6 +64,15 @@ CHARSET = "qpzry9x8gf2tvdw0s3jn54khce6mua7l"
 
 class UnknownOp(Exception):
     pass
+
+
+def safe(fn, *a, **kw):
+    """call the implementation while *generating* cases; a failure here is reported by the predicates, the
+    generator just goes without the dependent cases"""
+    try:
+        return fn(*a, **kw)
+    except Exception:
+        return None
 
 
 def rbytes(rng, n):
@@ -277,7 +287,11 @@ def bc32_subst_batch(s):
         for ch in CHARSET:
             if ch != s[pos]:
                 t = s[:pos] + ch + s[pos + 1:]
-                if B32.bc32decode(t) is not None:
+                try:
+                    accepted = B32.bc32decode(t) is not None
+                except Exception:
+                    accepted = False
+                if accepted:
                     bad.append(t)
     return bad
 
@@ -298,7 +312,9 @@ def run(ctx):
     for ln in lens:
         d = rbytes(rng, ln)
         lines.append(("cbor_enc", f"cbor_enc {xb(d)}"))
-        lines.append(("cbor_dec", f"cbor_dec {xb(B32.cbor_encode(d))}"))
+        e = safe(B32.cbor_encode, d)
+        if isinstance(e, bytes):
+            lines.append(("cbor_dec", f"cbor_dec {xb(e)}"))
         preds.append(("cbor_roundtrip", {"d": xb(d)}))
     streams = [b"", b"\x40", b"\x41", b"\x57", b"\x58", b"\x58\x05ab", b"\x59", b"\x59\x00", b"\x59\x00\x03abcd", b"\x5a\x00\x00\x00\x01a",
                b"\x60", b"\x60\x00\x00", b"\x60\x00\x00\x00\x02abc", b"\x3f", b"\x61a", b"\xff", b"\x00", b"\x45abc", b"\x42abcd"]
@@ -325,9 +341,11 @@ def run(ctx):
     for ln in list(range(0, 40)) + [rng.randrange(40, 400) for _ in range(ctx.n(20))] + [5000]:
         d = rbytes(rng, ln)
         lines.append(("bc32_enc", f"bc32_enc {xb(d)}"))
-        s = B32.bc32encode(d)
-        bc32_strings.append(s)
+        s = safe(B32.bc32encode, d)
         preds.append(("bc32_roundtrip", {"d": xb(d)}))
+        if not isinstance(s, str) or not s:
+            continue
+        bc32_strings.append(s)
         for v in (s, s.upper(), s[:1].upper() + s[1:], s[:-1], s + "q", "q" + s, s[: len(s) // 2] + s[len(s) // 2 + 1:]):
             lines.append(("bc32_dec", f"bc32_dec {xs(v)}"))
     for s in ["", "q", "qqqqqq", "b", "1", " ", "qqqqqqq", "QQQQQQ", "é" * 0 + "Q" * 7]:
@@ -341,9 +359,12 @@ def run(ctx):
                     lines.append(("bc32_dec_corrupt", f"bc32_dec {xs(s[:pos] + ch + s[pos + 1:])}"))
 
     # ---- _parse_bcur_helper / int()
-    sample = BC.BCURMulti(b64(b"hello world, this is a payload")).encode(max_size_per_chunk=30)
-    chk = sample[0].split("/")[2]
-    pay = sample[0].split("/")[3]
+    sample = safe(lambda: BC.BCURMulti(b64(b"hello world, this is a payload")).encode(max_size_per_chunk=30))
+    try:
+        chk = sample[0].split("/")[2]
+        pay = sample[0].split("/")[3]
+    except Exception:
+        chk, pay = "q" * 58, "qqqqqqqq"
     helpers = ["", "ur:bytes", "ur:bytes/", "ur:bytes//", "ur:bytes///", "ur:bytes////", "UR:BYTES/" + pay.upper(), "  ur:bytes/" + pay + "\n",
                "ur:bytes/" + pay, "ur:bytes/" + chk + "/" + pay, "ur:bytes/" + chk[:-1] + "/" + pay, "ur:bytes/" + chk + "q/" + pay,
                "ur:bytes/" + chk[:-1] + "b/" + pay, "ur:bytes/" + chk[:-1] + "\n/" + pay, "ur:bytes//" + pay, "ur:bytes/" + chk + "/",
@@ -364,7 +385,8 @@ def run(ctx):
     # ---- BCUR single / multi round trips over payload lengths and chunk sizes
     pl = [0, 1, 2, 17, 22, 23, 24, 25, 100, 254, 255, 256, 257, 500, 1000]
     pl += [rng.randrange(0, 2000) for _ in range(ctx.n(30))]
-    big = [65534, 65535, 65536, 65537, 70000] + [rng.randrange(2000, 70001) for _ in range(ctx.n(1, 10))]
+    # 65534 / 65537 are covered at the cbor_enc / bc32 level above; the full BCUR pipeline takes the boundary itself
+    big = [65535, 65536, 70000] + [rng.randrange(2000, 70001) for _ in range(ctx.n(1, 10))]
     chunk_catalogue = [1, 2, 3, 7, 58, 59, 100, 299, 300, 301, 1000, 1999, 2000]
     encoded = []   # (payload, parts) for the tamper tests
     for ln in pl + big:
@@ -375,7 +397,7 @@ def run(ctx):
         preds.append(("single_roundtrip", {"d": xb(d)}))
         enc_len = (ln + (1 if ln <= 23 else 2 if ln <= 255 else 3 if ln <= 65535 else 5)) * 8 // 5 + 8
         if ln > 2000 and not ctx.thorough:
-            cs = {rng.choice(chunk_catalogue), rng.randrange(1, 2001), 300}
+            cs = {rng.randrange(1, 2001), 300}
         else:
             cs = set(rng.sample(chunk_catalogue, 3)) | {rng.randrange(1, 2001) for _ in range(3)} | {300}
         if ln in (0, 24, 256):
@@ -389,17 +411,22 @@ def run(ctx):
         preds.append(("multi_roundtrip", {"d": xb(d), "chunk": 300, "animate": False}))
         lines.append(("multi_enc", f"multi_enc {xb(d)} 0 1"))
         if ln <= 2000:
-            o = BC.BCURMulti(b64(d))
-            for m in (300, max(1, len(o.encoded) // rng.randrange(1, 6))):
-                parts = o.encode(max_size_per_chunk=m)
-                encoded.append((d, parts))
-                lines.append(("multi_parse", "multi_parse " + " ".join([str(len(parts))] + [xs(p) for p in parts])))
-            s1 = BC.BCURSingle(b64(d))
-            lines.append(("single_parse", f"single_parse {xs(s1.encode())}"))
-            lines.append(("single_parse", f"single_parse {xs(s1.encode(use_checksum=False))}"))
-            lines.append(("bcur_dec", f"bcur_dec {xs(s1.encoded)} {xs(s1.enc_hash)}"))
-            lines.append(("bcur_dec", f"bcur_dec {xs(s1.encoded)} -"))
-            lines.append(("bcur_dec", f"bcur_dec {xs(s1.enc_hash)} {xs(s1.encoded)}"))
+            o = safe(BC.BCURMulti, b64(d))
+            if o is not None:
+                for m in (300, max(1, len(o.encoded) // rng.randrange(1, 6))):
+                    parts = safe(o.encode, max_size_per_chunk=m)
+                    if not isinstance(parts, list) or not all(isinstance(p, str) for p in parts):
+                        continue
+                    encoded.append((d, parts))
+                    lines.append(("multi_parse", "multi_parse " + " ".join([str(len(parts))] + [xs(p) for p in parts])))
+            s1 = safe(BC.BCURSingle, b64(d))
+            if s1 is not None:
+                for txt in (safe(s1.encode), safe(s1.encode, use_checksum=False)):
+                    if isinstance(txt, str):
+                        lines.append(("single_parse", f"single_parse {xs(txt)}"))
+                lines.append(("bcur_dec", f"bcur_dec {xs(s1.encoded)} {xs(s1.enc_hash)}"))
+                lines.append(("bcur_dec", f"bcur_dec {xs(s1.encoded)} -"))
+                lines.append(("bcur_dec", f"bcur_dec {xs(s1.enc_hash)} {xs(s1.encoded)}"))
 
     # ---- permutations, omissions, foreign parts for encodings of at most 5 parts
     small = [(d, p) for d, p in encoded if len(p) <= 5]
@@ -419,9 +446,10 @@ def run(ctx):
             preds.append(("tampered_parts", case))
             lines.append(("multi_parse_perm", "multi_parse " + " ".join([str(len(cand))] + [xs(p) for p in cand])))
         # a part of another payload encoded with the same number of parts, spliced in at every position
-        o = BC.BCURMulti(b64(d))
-        m = max(1, -(-len(o.encoded) // n))
-        foreign = BC.BCURMulti(b64(other_d + d[:5])).encode(max_size_per_chunk=max(1, -(-len(BC.BCURMulti(b64(other_d + d[:5])).encoded) // n)))
+        fo = safe(BC.BCURMulti, b64(other_d + d[:5]))
+        foreign = safe(fo.encode, max_size_per_chunk=max(1, -(-len(fo.encoded) // n))) if fo is not None else None
+        if not isinstance(foreign, list) or not foreign or any(p.count("/") != 3 for p in parts + foreign):
+            continue
         for i in range(n):
             if i < len(foreign):
                 cand = parts[:i] + [foreign[i]] + parts[i + 1:]
@@ -452,7 +480,7 @@ def run(ctx):
     pool = [(d, parts) for d, parts in encoded if len(parts) <= 3 and sum(len(p) for p in parts) < 400]
     rng.shuffle(pool)
     n_sub = 0
-    for d, parts in pool[: ctx.n(4, 60)]:
+    for d, parts in pool[: ctx.n(3, 60)]:
         for pi, p in enumerate(parts):
             for pos in range(len(p)):
                 for ch in alphabet:
@@ -464,8 +492,8 @@ def run(ctx):
                     n_sub += 1
                     if n_sub % 7 == 0:
                         lines.append(("multi_parse_subst", "multi_parse " + " ".join([str(len(cand))] + [xs(x) for x in cand])))
-        if len(parts) == 1:
-            s = BC.BCURSingle(b64(d)).encode()
+        s = safe(lambda: BC.BCURSingle(b64(d)).encode()) if len(parts) == 1 else None
+        if isinstance(s, str):
             for pos in range(len(s)):
                 for ch in CHARSET[:8] + "/1Q ":
                     if ch != s[pos]:
